@@ -358,7 +358,7 @@ func BuildScenario(seed int64, pow bool) (*Scenario, error) {
 	if p, err := clienttypes.NewCreateClientProposal("t", "d", "tss-chain", tssCS, &tsstypes.ConsensusState{}); err == nil {
 		sc.gov(p, "create tss client", true)
 	}
-	bscCS, bscCons, bscNext := buildBSC(sc.rng)
+	bscCS, bscCons, bscSteps := buildBSC(sc.rng, 45)
 	if p, err := clienttypes.NewCreateClientProposal("t", "d", "bsc-test", bscCS, bscCons); err == nil {
 		sc.gov(p, "create bsc client", true)
 	}
@@ -490,7 +490,18 @@ func BuildScenario(seed int64, pow bool) (*Scenario, error) {
 	sc.govAny(aggregatetypes.NewUpdateTokenPairERC20Proposal("t", "d", tokA.Hex(), tokA2.Hex()), "update pair erc20")
 
 	// ---- light-client updates of the other client types
-	sc.tx(rel, "bsc update", mustUpdate("bsc-test", bscNext, rel))
+	for i, st := range bscSteps {
+		res := w.DeliverMsgs(a, rel, mustUpdate("bsc-test", st.hdr, rel))
+		sc.cover("msg:/xibc.core.client.v1.MsgUpdateClient")
+		if st.honest {
+			sc.cover(fmt.Sprintf("bsc-honest-update-code-%d", res.Code))
+		} else {
+			sc.cover(fmt.Sprintf("bsc-recently-signed-candidate-code-%d", res.Code))
+		}
+		if i%7 == 6 {
+			w.Roll(a)
+		}
+	}
 	rk1 := rinkebyChild(rk0, 0x11, 13)
 	sc.tx(rel, "eth rinkeby update", mustUpdate("eth-rinkeby", &rk1, rel))
 	// TSS update from the TSS account (known to fail at this commit; failure is deterministic too)
@@ -608,46 +619,150 @@ func bscSeal(h *bsctypes.Header, chainID uint64, key *ecdsa.PrivateKey) {
 	copy(h.Extra[len(h.Extra)-sealLen:], sig)
 }
 
-// buildBSC returns a 3-validator Parlia anchor (an epoch block) and a valid next header.
-func buildBSC(rng *rand.Rand) (*bsctypes.ClientState, *bsctypes.ConsensusState, *bsctypes.Header) {
+// bscStep is one MsgUpdateClient of the BSC segment: an honest next header or a header sealed by a validator
+// that sealed one of the recent blocks (must be refused - deterministically).
+type bscStep struct {
+	hdr    *bsctypes.Header
+	honest bool
+}
+
+// buildBSC returns a Parlia anchor (an epoch block, 3 validators) and a header chain that crosses several epoch
+// switches with growing and shrinking validator sets; before every honest header come the headers of all
+// validators that are ineligible because they sealed recently.
+func buildBSC(rng *rand.Rand, heights int) (*bsctypes.ClientState, *bsctypes.ConsensusState, []bscStep) {
 	type val struct {
 		key  *ecdsa.PrivateKey
 		addr common.Address
 	}
-	var vs []val
-	for i := 0; i < 3; i++ {
+	var pool []val
+	for i := 0; i < 12; i++ {
 		seed := sha256.Sum256([]byte(fmt.Sprintf("c14-bsc-val-%d", i)))
 		k, err := crypto.ToECDSA(seed[:])
 		if err != nil {
 			panic(err)
 		}
-		vs = append(vs, val{k, crypto.PubkeyToAddress(k.PublicKey)})
+		pool = append(pool, val{k, crypto.PubkeyToAddress(k.PublicKey)})
 	}
-	sort.Slice(vs, func(i, j int) bool { return bytesLess(vs[i].addr, vs[j].addr) })
-	const chainID, epoch, anchor = 56, 200, 400
-	list := make([]byte, 0, 60)
-	var addrs [][]byte
-	for _, v := range vs {
-		list = append(list, v.addr.Bytes()...)
-		addrs = append(addrs, v.addr.Bytes())
+	byAddr := map[common.Address]val{}
+	for _, v := range pool {
+		byAddr[v.addr] = v
 	}
-	mk := func(number uint64, parent []byte, extra []byte, t uint64) *bsctypes.Header {
-		signer := vs[number%3]
+	pick := func(n int) []common.Address {
+		perm := rng.Perm(len(pool))[:n]
+		var out []common.Address
+		for _, i := range perm {
+			out = append(out, pool[i].addr)
+		}
+		sort.Slice(out, func(i, j int) bool { return bytesLess(out[i], out[j]) })
+		return out
+	}
+	const chainID, epoch = 56, 10
+	anchor := uint64(epoch * (2 + rng.Intn(50)))
+	sizes := []int{3, 7, 4, 9, 5}
+	cur := pick(sizes[0])
+	si := 1
+	pend := pick(sizes[si])
+	listBytes := func(l []common.Address) []byte {
+		var out []byte
+		for _, a := range l {
+			out = append(out, a.Bytes()...)
+		}
+		return out
+	}
+	inturn := func(set []common.Address, n uint64) common.Address { return set[n%uint64(len(set))] }
+	mk := func(number uint64, parent []byte, list []common.Address, t uint64, signer common.Address, set []common.Address) *bsctypes.Header {
+		extra := make([]byte, 32)
+		if list != nil {
+			extra = append(extra, listBytes(list)...)
+		}
+		extra = append(extra, make([]byte, sealLen)...)
+		diff := byte(1)
+		if inturn(set, number) == signer {
+			diff = 2
+		}
 		h := &bsctypes.Header{
-			ParentHash: parent, UncleHash: gethtypes.EmptyUncleHash.Bytes(), Coinbase: signer.addr.Bytes(), Root: hash32(fmt.Sprintf("root-%d", number)),
-			TxHash: hash32("tx"), ReceiptHash: hash32("rc"), Bloom: make([]byte, 256), Difficulty: []byte{2}, Height: clienttypes.NewHeight(0, number),
+			ParentHash: parent, UncleHash: gethtypes.EmptyUncleHash.Bytes(), Coinbase: signer.Bytes(), Root: hash32(fmt.Sprintf("root-%d-%x", number, signer[:4])),
+			TxHash: hash32("tx"), ReceiptHash: hash32("rc"), Bloom: make([]byte, 256), Difficulty: []byte{diff}, Height: clienttypes.NewHeight(0, number),
 			GasLimit: 30000000, GasUsed: 1000000, Time: t, Extra: extra, MixDigest: make([]byte, 32), Nonce: make([]byte, 8),
 		}
-		bscSeal(h, chainID, signer.key)
+		bscSeal(h, chainID, byAddr[signer].key)
 		return h
 	}
-	ex0 := append(append(make([]byte, 32), list...), make([]byte, sealLen)...)
-	h0 := mk(anchor, hash32("parent"), ex0, 1650000000)
-	ph := bscHash(h0)
-	h1 := mk(anchor+1, ph[:], append(make([]byte, 32), make([]byte, sealLen)...), 1650000003)
+	recents := map[uint64]common.Address{}
+	t := uint64(1650000000)
+	a0 := inturn(cur, anchor)
+	h0 := mk(anchor, hash32("parent"), pend, t, a0, cur)
+	recents[anchor] = a0
+	head := h0
+	var addrs [][]byte
+	for _, a := range cur {
+		addrs = append(addrs, a.Bytes())
+	}
 	cs := &bsctypes.ClientState{Header: *h0, ChainId: chainID, Epoch: epoch, BlockInteval: 3, Validators: addrs, ContractAddress: make([]byte, 20), TrustingPeriod: 1 << 40}
 	cons := &bsctypes.ConsensusState{Timestamp: h0.Time, Height: h0.Height, Root: h0.Root}
-	return cs, cons, h1
+	var steps []bscStep
+	for i := 1; i <= heights; i++ {
+		n := anchor + uint64(i)
+		t += 3
+		limit := uint64(len(cur)/2 + 1)
+		recent := func(a common.Address) bool {
+			for seen, s := range recents {
+				if s == a && (n < limit || seen > n-limit) {
+					return true
+				}
+			}
+			return false
+		}
+		ph := bscHash(head)
+		var list []common.Address
+		if n%epoch == 0 {
+			si = (si + 1) % len(sizes)
+			list = pick(sizes[si])
+		}
+		// ineligible sealers first
+		for _, a := range cur {
+			if recent(a) {
+				steps = append(steps, bscStep{mk(n, ph[:], list, t, a, cur), false})
+			}
+		}
+		// the honest sealer: in turn if eligible, else the first eligible validator
+		signer := inturn(cur, n)
+		if recent(signer) {
+			found := false
+			for _, a := range cur {
+				if !recent(a) {
+					signer, found = a, true
+					break
+				}
+			}
+			if !found {
+				break
+			}
+		}
+		h := mk(n, ph[:], list, t, signer, cur)
+		steps = append(steps, bscStep{h, true})
+		// advance the model the way upstream Parlia does
+		if n >= limit {
+			delete(recents, n-limit)
+		}
+		recents[n] = signer
+		if list != nil {
+			pend = list
+		}
+		if n%epoch == uint64(len(cur)/2) {
+			newLimit := uint64(len(pend)/2 + 1)
+			if newLimit < limit {
+				for k := uint64(0); k < limit-newLimit; k++ {
+					if n >= newLimit+k {
+						delete(recents, n-newLimit-k)
+					}
+				}
+			}
+			cur = pend
+		}
+		head = h
+	}
+	return cs, cons, steps
 }
 
 func bytesLess(a, b common.Address) bool {
